@@ -2,7 +2,7 @@
 import ast
 import copy
 
-from ..astutil import call_name, walk_no_nested, fn_calls
+from ..astutil import strip_doc, call_name, walk_no_nested, fn_calls
 from ..intervals import ISet, test_set, Undecidable
 from ..loader import is_unknown
 
@@ -272,6 +272,36 @@ def _address(ctx, repo, tm):
             ok = True
     ctx.decide(ok and len(famvars) == 1, "R-TABLE/address-layout", construct, at.where(fn), "data = family + packed address",
                "the stored value is not `family code + packed address` (family first)", key="layout")
+    # text path on terms: the address whose class selects the family and whose `.packed` is stored is exactly
+    # ipaddress.ip_address(<the given literal>) - not a value derived from it
+    from .. import sym as _sa
+    pd_ = [a_.arg for a_ in fn.args.args if a_.arg != "self"][0]
+    DATA_ = _sa.S(pd_)
+    IP_ = ("call", ("attr", ("name", "ipaddress"), "ip_address"), (DATA_,), ())
+
+    def hook_(t):
+        if isinstance(t, tuple) and t and t[0] == "call" and t[1] == ("name", "isinstance") and t[2][:1] == (DATA_,):
+            return "str" in _sa.show(t[2][1]) and "bytes" not in _sa.show(t[2][1])
+        return None
+    rows_ = []
+    okt = True
+    for p_ in _sa.Interp(fold=lambda e: repo.fold(tm, e), hook=hook_).run(strip_doc(fn.body), _sa.PathState({pd_: DATA_}, [], [])):
+        if p_.term == "raise":
+            continue
+        v = p_.get("self._data")
+        fam4 = any(tv and c == ("call", ("name", "isinstance"), (IP_, ("attr", ("name", "ipaddress"), "IPv4Address")), ()) for c, tv in p_.conds)
+        fam6 = any(tv and c == ("call", ("name", "isinstance"), (IP_, ("attr", ("name", "ipaddress"), "IPv6Address")), ()) for c, tv in p_.conds)
+        want = None
+        if fam4:
+            want = ("op", "Add", b"\x00\x01", ("attr", IP_, "packed"))
+        elif fam6:
+            want = ("op", "Add", b"\x00\x02", ("attr", IP_, "packed"))
+        rows_.append(_sa.show(v)[:90])
+        okt = okt and want is not None and v == want
+    ctx.decide(okt and bool(rows_), "R-TABLE/address-text", construct, at.where(fn),
+               "a textual address is stored as family(ip) + ip.packed with ip = ipaddress.ip_address(text)",
+               f"for a textual address the stored value is {rows_}: not `family + packed` of ipaddress.ip_address(<the text>) itself - the "
+               f"wire data and the accessors no longer denote the address that was given", key="text_path")
     # bytes path: per family code (one run of the term interpreter each), the bytes after the 2 family octets are
     # validated by the class of that family; an unknown family is stored as given
     from ._address import bytes_cases, CODES
